@@ -697,7 +697,17 @@ func (w *W) harnessAPI(f *frame, fn *ssa.Function, args []Value, key int, g *Ter
 		return v, g, true
 	case "vLibGoroutinesAlive":
 		if f.finalGuard == nil {
-			panic("vLibGoroutinesAlive is only meaningful in final-state predicates")
+			// in the atomic prologue nothing but the harness has run: alive = spawned so far
+			if !w.prologue || t.id != 0 {
+				panic("vLibGoroutinesAlive is only meaningful in final-state predicates and in the prologue")
+			}
+			n := BV(64, 0)
+			for _, th := range w.threads {
+				if th.fromLib && th.spawned != nil {
+					n = Add(n, Ite(th.spawned, BV(64, 1), BV(64, 0)))
+				}
+			}
+			return n, g, true
 		}
 		n := BV(64, 0)
 		for _, th := range w.threads {
